@@ -152,6 +152,11 @@ def families(thorough):
     for t in (['Pst1', 'S', 'Bs', 'E', 'S'], ['Pst1', 'Bs', 'E', 'S', 'Bs', 'E', 'S'], ['Pst2', 'S', 'Pst1', 'S', 'Bs2', 'E', 'S', 'Bs', 'E', 'S'], ['begin', 'Pst1', 'S', 'Bs', 'E', 'S'],
               ['Pst1', 'Ds', 'S', 'Ds', 'S']):
         s.append(Case(t, stop='X', cache=4, plugins=True))
+    # the plugin configuration is fixed (t1 listed): a client must not be able to talk its way around it -- e.g. with the routing commands, which
+    # switch the SQL parser off for the session
+    for t in (["q:SET SERVER ROLE TO 'primary'", 'qt1'], ["q:SET SERVER ROLE TO 'primary'", 'Pt1', 'B', 'E', 'S'], ["q:SET SERVER ROLE TO 'any'", 'begin', 'qt1', 'commit'],
+              ['qt2', "q:SET SERVER ROLE TO 'replica'", 'qt1']):
+        s.append(Case(t, stop='X', plugins='deny-t1'))
     F['plugins'] = s
     # -- the backend reports an arbitrary (reachable) transaction status after every statement
     s = []
